@@ -68,11 +68,12 @@ class RunAbort(BaseException):
     """Raised inside simulator code to unwind out of the server."""
 
 
-def violation(prop: str, clause: str, site: str, detail: str = "", op=None):
-    S.violations.append(
-        {"prop": prop, "clause": clause, "site": site, "detail": detail[:2000],
+def violation(prop: str, clause: str, site: str, detail: str = "", op=None, coarse=None):
+    v = {"prop": prop, "clause": clause, "site": site, "detail": detail[:2000],
          "op": S.cur_op if op is None else op}
-    )
+    if coarse is not None:
+        v["coarse"] = coarse
+    S.violations.append(v)
 
 
 # ----------------------------------------------------------------------------
